@@ -656,6 +656,16 @@ func drawLeaf(t *rapid.T, forArray bool) (*j5sgen.Type, []cand) {
 		}
 	case "key":
 		ty.Format = rapid.SampledFrom([]string{"id62", "uuid", "custom", "informal", ""}).Draw(t, "keyformat")
+		if !forArray {
+			switch rapid.IntRange(0, 5).Draw(t, "keyentity") {
+			case 0:
+				ty.KeyPrimaryFalse = true // said aloud that it is no primary key: implies nothing
+			case 1:
+				ty.KeyForeign = "rule.check.v1.Other"
+			case 2:
+				ty.KeyTenant = "account"
+			}
+		}
 		switch ty.Format {
 		case "id62":
 			cs = append(cs, cand{S: sp("0123456789ABCDEFGHIJab")}, cand{S: sp("0123456789ABCDEFGHIJa")}, cand{S: sp("0123456789ABCDEFGHIJabc")}, cand{S: sp("0123456789ABCDEFGHIJ-b")}, cand{S: sp("")})
